@@ -51,6 +51,8 @@ def run_section(ch):
     frame = ch.pick('framing', ['ok', 'ch_size+1', 'ch_size-1', 'unknown_ch_type', 'ch_size0', 'trailing_garbage', 'truncated_stream']) if comp.startswith('zlib') else 'ok'
     ch_align = ch.pick('ch_addralign', [1, 0, 8, 4096]) if comp.startswith('zlib') else 1
     sh_align = ch.pick('sh_addralign', [16, 1, 0])
+    # a second section with the SAME name and storage kind but other contents (one .debug_macro per COMDAT group, two .dynstr ...): contents belong to a section, not to a name
+    twin = ch.pick('same_name_twin', ['none', 'before', 'after'])
     img.null()
     if place == 'odd':
         img.add(eg.Sec('.pad', 1, data=b'\xaa', file_align=1))
@@ -106,7 +108,16 @@ def run_section(ch):
             exp_data = raw
             exp_size = len(raw)
         sec = eg.Sec('.probe', stype, data=raw, flags=flags, align=sh_align, file_align=(1 if place == 'odd' else 8))
+    tsec = None
+    if twin != 'none' and place != 'at_eof' and not kind.startswith('nobits'):
+        tpayload = _payload(SEED + 99, size + 7)
+        traw = (f.chdr(1, size + 7, 1) + zlib.compress(tpayload, 6)) if compressed else tpayload
+        tsec = eg.Sec('.probe', sec.type, data=traw, flags=(2 | (eg.SHF_COMPRESSED if compressed else 0)), align=1, file_align=4)
+        if twin == 'before':
+            img.add(tsec)
     img.add(sec)
+    if tsec is not None and twin == 'after':
+        img.add(tsec)
     if place == 'at_eof':
         img.sh_place = 'after_ehdr'
         # name table must precede: put it before the probe
@@ -146,6 +157,17 @@ def run_section(ch):
     if not exp_err and not isinstance(d, Raised) and d2 != d:
         fails.append(('section.data() second call', 'same bytes', 'different'))
     obs.append(core.digest(d if isinstance(d, (bytes, bytearray)) else repr(d)))
+    if tsec is not None:
+        t1 = guarded(lambda: elf.get_section(tsec.index).data())                # after the probe was read
+        t2 = guarded(lambda: _elf(data).get_section(tsec.index).data())         # first thing asked of a fresh object
+        for label, t in (('twin.data() after the probe', t1), ('twin.data() on a fresh object', t2)):
+            if isinstance(t, Raised) or t != tpayload:
+                fails.append((label, '%d bytes %s..' % (len(tpayload), tpayload[:8].hex()), t if isinstance(t, Raised) else '%d bytes %s..' % (len(t), bytes(t[:8]).hex())))
+        if not exp_err:
+            d3 = guarded(lambda: (lambda e: (e.get_section(tsec.index).data(), e.get_section(sec.index).data())[1])(_elf(data)))     # probe after the twin
+            if isinstance(d3, Raised) or d3 != exp_data:
+                fails.append(('section.data() after its same-name twin was read', '%d bytes %s..' % (len(exp_data), exp_data[:8].hex()),
+                              d3 if isinstance(d3, Raised) else '%d bytes %s..' % (len(d3), bytes(d3[:8]).hex())))
     return Case(fails, data, repr(obs), nontrivial=exp_size > 0,
                 sample={'class': cls, 'le': le, 'size': size, 'kind': kind, 'compression': comp, 'framing': frame, 'file_bytes': len(data)}, checks=5)
 
